@@ -613,6 +613,10 @@ class PenlogReader:
         return prio
 
     def seek_to_record(self, n: int) -> None:
+        if n < 0:
+            n += len(self)
+            if n < 0:
+                raise IndexError("record index out of range")
         self.file_mmap.seek(self._lookup_offset(n))
         self._current_record_index = n
 
@@ -620,8 +624,9 @@ class PenlogReader:
         self.file_mmap.seek(self._lookup_offset(self._current_record_index))
 
     def seek_to_previous_record(self) -> None:
-        self._current_record_index -= 1
-        self.seek_to_record(self._current_record_index)
+        if self._current_record_index <= 0:
+            raise IndexError("no record before the first one")
+        self.seek_to_record(self._current_record_index - 1)
 
     def seek_to_next_record(self) -> None:
         self._current_record_index += 1
@@ -630,9 +635,13 @@ class PenlogReader:
     def records(
         self,
         priority: PenlogPriority = PenlogPriority.TRACE,
-        offset: int = 0,
+        offset: int | None = None,
         reverse: bool = False,
     ) -> Iterator[PenlogRecord]:
+        if offset is None:
+            offset = -1 if reverse else 0
+        if reverse and len(self) == 0:
+            return
         self.seek_to_record(offset)
         if reverse is False:
             while True:
